@@ -1,5 +1,6 @@
 import Ptk.Proto
 import Ptk.Model.C14
+import Ptk.Gen.PyChars
 open Ptk Ptk.Py Ptk.Proto Ptk.C14
 
 /-- scripted validator family used by the correspondence harness
@@ -47,8 +48,25 @@ def encOut : Out → String
   | .rejected => "rej"
   | .assertErr => "aerr"
 
+def encOInt : Option Int → String
+  | none => "N"
+  | some n => toString n
+
+def encRun : Option (Text × Nat) → String
+  | none => "N"
+  | some (t, c) => s!"R:{encStr t}:{c}"
+
+def encYank : Option Yank → String
+  | none => "N"
+  | some y => s!"Y:{y.pos}:{y.n}:{encStr y.prev}"
+
+/-- the runtime classes and the word splitter the key level is instantiated with -/
+def drvEnv : Env :=
+  { isSp := Ptk.Gen.isSpace, words := quotedWords Ptk.Gen.reSpace Ptk.Gen.isSpace,
+    fixG := Ptk.Gen.C14.goToHistoryResetsSearch }
+
 def showSt (s : St) (o : String) : String :=
-  s!"{s.idx} {s.cur} {encV s.vstate} {encOptStr s.search} {encOptNat s.pref} {encBool s.loading} {encBool s.vpending} {encBool s.hloaded} {encBool s.ehs} W {encList encStr s.work} H {encList encStr s.hist} S {encList encStr s.storage} P {encList encStr s.pending} {o}"
+  s!"{s.idx} {s.cur} {encV s.vstate} {encOInt s.verr} {encOptStr s.search} {encOptNat s.pref} {encBool s.loading} {s.vtasks} {encRun s.vrun} {encBool s.hloaded} {encBool s.ehs} {encBool s.vwt} {encList toString s.preRun} {encYank s.yank} W {encList encStr s.work} H {encList encStr s.hist} S {encList encStr s.storage} P {encList encStr s.pending} {o}"
 
 def decStrs : List String → Option (List Text)
   | [] => some []
@@ -73,6 +91,11 @@ def parseKey : List String → Option Key
   | ["beginhist"] => some .beginHist
   | ["endhist"] => some .endHist
   | ["enter"] => some .enter
+  | ["escenter"] => some .escEnter
+  | ["c-o"] => some .ctrlO
+  | ["yanknth", a] => do pure (.yankNth (← decOptInt a))
+  | ["yanklast", a] => do pure (.yankLast (← decOptInt a))
+  | ["valdone"] => some .valDone
   | _ => none
 
 def parseViKey : List String → Option ViKey
@@ -90,6 +113,7 @@ def parseViKey : List String → Option ViKey
   | ["down", a] => do pure (.down (← decInt a))
   | ["G", n] => do pure (.gotoG (← decNat n))
   | ["enter"] => some .enter
+  | ["valdone"] => some .valDone
   | _ => none
 
 def parseOp : List String → Option Op
@@ -103,11 +127,19 @@ def parseOp : List String → Option Op
   | ["end"] => some .endl
   | ["hb", c] => do pure (.histBack (← decInt c))
   | ["hf", c] => do pure (.histFwd (← decInt c))
-  | ["goto", i] => do pure (.goTo (← decNat i))
-  | ["endhist"] => some .endHist
+  | ["goto", i] => do
+    let i ← decNat i
+    pure (if Ptk.Gen.C14.goToHistoryResetsSearch then .goToFixed i else .goTo i)
+  | ["gotofix", i] => do pure (.goToFixed (← decNat i))
+  | ["endhistfix"] => some .endHistFixed
+  | ["endhist"] => some (if Ptk.Gen.C14.goToHistoryResetsSearch then .endHistFixed else .endHist)
   | ["aup", c, g] => do pure (.autoUp (← decInt c) (← decBool g))
   | ["adown", c, g] => do pure (.autoDown (← decInt c) (← decBool g))
   | ["ehs", b] => do pure (.setEhs (← decBool b))
+  | ["vwt", b] => do pure (.setVwt (← decBool b))
+  | ["vstart"] => some .vStart
+  | ["vrel"] => some .vFinish
+  | ["reseta", t, c] => do pure (.resetAppend (← decStr t) (← decNat c))
   | ["validate", b] => do pure (.validate (← decBool b))
   | ["avalidate"] => some .asyncValidate
   | ["accept", k] => do pure (.accept (← decBool k))
@@ -120,17 +152,28 @@ def parseOp : List String → Option Op
 def stepLine1 (d : DSt) (toks : List String) : DSt × String :=
   let v := d.vs.toValidator
   match toks with
-  | "init" :: e :: w :: strs =>
-    match decBool e, decBool w, decStrs strs with
-    | some e, some w, some strs =>
-      let s := St.fresh strs e w
+  | "init" :: e :: w :: a :: m :: strs =>
+    match decBool e, decBool w, decBool a, decBool m, decStrs strs with
+    | some e, some w, some a, some m, some strs =>
+      let s := St.fresh strs e w a m
       ({ d with st := s, done := false }, showSt s "-")
-    | _, _, _ => (d, "bad-op")
+    | _, _, _, _, _ => (d, "bad-op")
   | ["val", m, nd, pm, a] =>
     match decNat m, decStr nd, decNat pm, decInt a with
     | some m, some nd, some pm, some a =>
       ({ d with vs := { mode := m, needle := nd, posMode := pm, arg := a } }, showSt d.st "-")
     | _, _, _, _ => (d, "bad-op")
+  | ["show"] => (d, showSt d.st "-")
+  | ["words", t] =>
+    match decStr t with
+    | some t => (d, encList encStr (drvEnv.words t))
+    | none => (d, "bad-op")
+  | ["yank", a, l] =>
+    match decOptInt a, decBool l with
+    | some a, some l =>
+      let (s, o) := step v d.st (yankOp drvEnv d.st a l)
+      ({ d with st := s }, showSt s (encOut o))
+    | _, _ => (d, "bad-op")
   | ["loadall"] =>
     let s := loadAll d.st
     ({ d with st := s }, showSt s "-")
@@ -149,7 +192,7 @@ def stepLine1 (d : DSt) (toks : List String) : DSt × String :=
     if d.done then (d, "after-accept") else
     match parseViKey rest with
     | some k =>
-      let (vs, o) := viKeyStep v { st := d.st, nav := d.nav } k
+      let (vs, o) := viKeyStep v drvEnv { st := d.st, nav := d.nav } k
       let fin := match o with | .accepted _ => true | _ => false
       ({ d with st := vs.st, nav := vs.nav, done := fin }, showSt vs.st (encBool vs.nav ++ " " ++ encOut o))
     | none => (d, "bad-op")
@@ -157,7 +200,7 @@ def stepLine1 (d : DSt) (toks : List String) : DSt × String :=
     if d.done then (d, "after-accept") else
     match parseKey rest with
     | some k =>
-      let (s, o) := keyStep v d.st k
+      let (s, o) := keyStep v drvEnv d.st k
       let fin := match o with | .accepted _ => true | _ => false
       ({ d with st := s, done := fin }, showSt s (encOut o))
     | none => (d, "bad-op")
